@@ -16,8 +16,12 @@ out = ["# Independently written breaking changes and which checks catch them", "
        "Each change was written by a sub-agent that saw only the property text and a scratch worktree of the",
        "repository (nothing from /verif). `tools/seed_eval.py` confirmed each one in a scratch worktree (demo passes",
        "without the change, fails with it; the pinned suite passes with it), then applied it to /repo, ran the quick",
-       "tier of all 17 checks with VERIF_SEED=0 and reverted. `history` lists earlier evaluations of the same change",
-       "against older versions of the checks (what was missed before a check was strengthened).", "",
+       "tier of the checks with VERIF_SEED=0 and reverted: all 17 at the first evaluation; at re-evaluations (after",
+       "the checks or the tree changed) the targeted check, the checks that caught it before, C01 and C02 - so a",
+       "shorter list in the latest column does not mean that the other checks stopped catching it. Patches that no",
+       "longer applied after later fix commits were ported (`patch.orig.diff` keeps the author's version). `history`",
+       "lists earlier evaluations of the same change against older versions of the checks (what was missed before a",
+       "check was strengthened).", "",
        "| change | targets | confirmed | caught by (quick, seed 0) | earlier evaluations |", "|---|---|---|---|---|"]
 for label, prop, ok, caught, hist, notes in rows:
     out.append(f"| {label} | {prop} | {'yes' if ok else 'NO'} | {', '.join(caught) if caught else '**none**'} | {'; '.join(hist)} |")
